@@ -56,6 +56,7 @@ def main(argv=None):
     ap.add_argument('--replay', default=None)
     ap.add_argument('--budget', type=float, default=None)
     ap.add_argument('--max-report', type=int, default=20)
+    ap.add_argument('--count', action='store_true', help='only count the cases of every space (no execution)')
     args = ap.parse_args(argv)
 
     pid = args.pid.upper()
@@ -70,6 +71,15 @@ def main(argv=None):
 
     t0 = time.time()
     spaces = mod.spaces(args.tier, seed)
+    if args.count:
+        for sp in spaces:
+            nch = n = 0
+            for ch in sp.chunks:
+                nch += 1
+                if sp._run_chunk is None:
+                    n += sum(1 for _ in sp.expand(ch))
+            print(f'{pid} {args.tier} space {sp.name}: chunks={nch} cases={n if sp._run_chunk is None else "(custom chunk runner)"}')
+        return 0
     budget = args.budget
     if budget is None:
         budget = getattr(mod, 'BUDGET', {}).get(args.tier)
